@@ -188,6 +188,22 @@ func rangeVisitsAllBut(fn *ssa.Function, src ssa.Value, skipConst string, visit 
 			skipBlocks[b] = eqSucc + 1
 		}
 	}
+	// the reserved entry really is excluded: the visit happens only past the `key != skipConst` edge
+	if skipConst != "" {
+		excluded := false
+		for b, sb := range skipBlocks {
+			if len(b.Succs) != 2 {
+				continue
+			}
+			other := b.Succs[1-(sb-1)]
+			if other != b.Succs[sb-1] && (other == call.Block() || other.Dominates(call.Block())) && len(other.Preds) == 1 {
+				excluded = true
+			}
+		}
+		if !excluded {
+			return false, "the entry " + skipConst + " is copied like any other"
+		}
+	}
 	// explore paths from body start avoiding the call; every arrival at the header must have used a skip edge
 	type st struct {
 		b       *ssa.BasicBlock
@@ -328,6 +344,42 @@ func C09(ctx *core.Ctx) {
 		}
 		ctx.Check(ok && n > 0, "C09.R1", name+" › response header / helper gets the fctx it was given", fnPos(r, fn), sprintf("%d use(s), all with the fctx parameter", n),
 			"a reply is written with a context other than the request's: the caller sees another request's op id / headers")
+	}
+
+	// ---- R7: the dispatcher hands the handler the context as it was received ---------------
+	ctx.Rule("C09.R7", "the server-side dispatcher does not rewrite the request's context: between ReadRequestHeader and the processor function no request header (timeout, correlation id, user header) is set on it", 1)
+	if proc := r.Fn("C09.R7", "(*FBaseProcessor).Process"); proc != nil {
+		var fctx ssa.Value
+		for _, c := range ssax.Calls(proc) {
+			if _, op := protoOp(c); op == "ReadRequestHeader" {
+				for _, u := range *c.Instr.Value().Referrers() {
+					if e, ok := u.(*ssa.Extract); ok && e.Index == 0 {
+						fctx = e
+					}
+				}
+			}
+		}
+		if fctx == nil {
+			ctx.Unresolved("C09.R7", ssax.Name(proc), "ReadRequestHeader result not found")
+		} else {
+			al := valueAliases(fctx)
+			bad := ""
+			for _, g := range localCone(proc, 2) {
+				if g != proc && (g.Object() == nil || g.Object().Exported()) {
+					continue
+				}
+				for _, c := range ssax.Calls(g) {
+					switch c.ShortName() {
+					case "SetTimeout", "AddRequestHeader":
+						if len(c.Args()) > 0 && al[ssax.Strip(c.Args()[0])] {
+							bad = r.IPos(c.Instr) + ": " + c.ShortName() + " in " + ssax.Name(g)
+						}
+					}
+				}
+			}
+			ctx.Check(bad == "", "C09.R7", ssax.Name(proc)+" › the request's context reaches the handler unmodified", fnPos(r, proc), "no SetTimeout/AddRequestHeader on the received context before dispatch",
+				"the dispatcher changes the received context ("+bad+") — SetTimeout and AddRequestHeader mutate their receiver — so the handler observes a timeout or header the caller did not place on the FContext")
+		}
 	}
 
 	// ---- R2 ---------------------------------------------------------------------
@@ -541,7 +593,35 @@ func C09(ctx *core.Ctx) {
 		}
 		ctx.Check(ok, "C09.R3", ssax.Name(reply)+" › ReadResponseHeader(fctx)", fnPos(r, reply), "response headers merged into the caller's FContext", "response headers are merged into a context other than the caller's")
 	}
+	// the exported reader, and whatever else the client's reply path reads response headers with
+	var readers []*ssa.Function
 	if rh := r.Fn("C09.R3", "(*FProtocol).ReadResponseHeader"); rh != nil {
+		readers = append(readers, rh)
+	}
+	if reply != nil {
+		for _, g := range localCone(reply, 2) {
+			dup := false
+			for _, x := range readers {
+				dup = dup || x == g
+			}
+			if dup {
+				continue
+			}
+			reads, adds := false, false
+			for _, c := range ssax.Calls(g) {
+				if c.Static != nil && c.Static.Pkg == r.Pkg && returnsHeaderMap(c.Static) {
+					reads = true
+				}
+				if c.ShortName() == "AddResponseHeader" {
+					adds = true
+				}
+			}
+			if reads && adds {
+				readers = append(readers, g)
+			}
+		}
+	}
+	for _, rh := range readers {
 		var headers ssa.Value
 		for _, c := range ssax.Calls(rh) {
 			if c.Static != nil && c.Static.Pkg == r.Pkg && returnsHeaderMap(c.Static) {
@@ -555,7 +635,13 @@ func C09(ctx *core.Ctx) {
 		if headers == nil {
 			ctx.Unresolved("C09.R3", ssax.Name(rh), "header read not found")
 		} else {
-			ok, why := rangeCopiesAllBut(rh, headers, "AddResponseHeader", rh.Params[1], opid)
+			var dst ssa.Value = rh.Params[len(rh.Params)-1]
+			for _, q := range rh.Params {
+				if ssax.TypeNamed(q.Type(), "", "FContext") {
+					dst = q
+				}
+			}
+			ok, why := rangeCopiesAllBut(rh, headers, "AddResponseHeader", dst, opid)
 			ctx.Check(ok, "C09.R3", ssax.Name(rh)+" › every response header except _opid is merged into the caller's context", fnPos(r, rh), "range over the headers read, ctx.AddResponseHeader(name, value) unless name == _opid", "response headers set by the handler do not all reach the caller: "+why)
 		}
 	}
